@@ -2,8 +2,9 @@ package server
 
 // Simulation harness: scenario kind "election" (C12 at message level).
 //
-// 3-5 members (data members of different weights, weight-0 members, arbiters; log positions near
-// ordinary values, near the middle and near the wrap-around of the position space; cached views of
+// 3-5 members (data members of different weights, weight-0 members, arbiters; log positions from a history
+// of appends and rotations, with file indexes around ordinary values, the middle and the wrap-around of
+// the index space; cached views of
 // the other members' positions exact or stale). Every member is a real ArbiterManager with its real
 // ArbiterVoter; the ArbiterClient of every member writes its REPL_VOTE / REPL_PROPOSAL / REPL_COMMIT
 // requests into a connection the harness owns. Nothing moves by itself: a driver picks, with the
@@ -68,11 +69,18 @@ type ELRestart struct {
 	Recandidate bool `json:"recandidate,omitempty"`
 }
 
+// ELPos is one position of the cluster's log history: file number (counted from the base index) and
+// record count inside that file. A rotation starts a new file at a small count.
+type ELPos struct {
+	File int    `json:"file"`
+	Off  uint32 `json:"off"`
+}
+
 type ELBody struct {
-	Members     []ELMember  `json:"members"`
-	BaseIndex   uint32      `json:"base_index"`
-	BaseOffset  uint32      `json:"base_offset"`
-	RecordStep  uint32      `json:"record_step"`
+	Members []ELMember `json:"members"`
+	// Chain: the positions the log went through, oldest first; ELMember.Pos indexes it
+	Chain      []ELPos `json:"chain"`
+	BaseIndex  uint32  `json:"base_index"`
 	SavedCommit uint64      `json:"saved_commit"`
 	Cands       []ELCand    `json:"cands"`
 	LossPermil  int         `json:"loss_permil"`
@@ -91,16 +99,25 @@ func genElection(prop string, seed uint64, tier string) *Scenario {
 	if r.Intn(2) == 0 {
 		n = 3
 	}
-	body := &ELBody{RecordStep: []uint32{64, 64, 128, 4096}[r.Intn(4)], SavedCommit: uint64(r.Intn(4)), MaxSteps: 400}
-	switch r.Intn(6) {
-	case 0: // the position space wraps around inside the members' range
-		body.BaseIndex, body.BaseOffset = 0xffffffff, 0xffffffff-uint32(r.Intn(6))*body.RecordStep
-	case 1: // the middle of the position space
-		body.BaseIndex, body.BaseOffset = 0x7ffffffe+uint32(r.Intn(2)), 0xffffffff-uint32(r.Intn(6))*body.RecordStep
-	case 2: // a file boundary
-		body.BaseIndex, body.BaseOffset = uint32(1+r.Intn(5)), 0xffffffff-uint32(r.Intn(6))*body.RecordStep
+	body := &ELBody{SavedCommit: uint64(r.Intn(4)), MaxSteps: 400}
+	switch r.Intn(5) {
+	case 0: // the file index wraps around inside the history (the index after 0xffffffff is 1)
+		body.BaseIndex = 0xffffffff - uint32(r.Intn(3))
+	case 1: // the middle of the index space
+		body.BaseIndex = 0x7ffffffe + uint32(r.Intn(2))
 	default:
-		body.BaseIndex, body.BaseOffset = uint32(1+r.Intn(40)), uint32(12+64*r.Intn(5000))
+		body.BaseIndex = uint32(1 + r.Intn(40))
+	}
+	// the history: records are appended, now and then the log rotates to a new file that starts at a small count
+	cur := ELPos{File: 0, Off: uint32(1 + r.Intn(3000))}
+	rot := []int{0, 250, 250, 600}[r.Intn(4)] // permille of steps that are a rotation
+	for i := 0; i < 9; i++ {
+		body.Chain = append(body.Chain, cur)
+		if r.Intn(1000) < rot {
+			cur = ELPos{File: cur.File + 1, Off: uint32(1 + r.Intn(4))}
+		} else {
+			cur.Off += uint32(1 + r.Intn(40))
+		}
 	}
 	arbiters, zeros := 0, 0
 	mix := r.Intn(6) // 0,1: data members only
@@ -263,12 +280,21 @@ type elRun struct {
 
 func elHost(i int) string { return fmt.Sprintf("127.0.0.1:%d", 5210+i) }
 
-// position of a log that is `pos` records beyond the base, as the 16-byte position of the code under test
+// position number pos of the history, as the 16-byte position of the code under test
 func (run *elRun) posId(pos int, t int) [16]byte {
-	id := uint64(run.body.BaseIndex)<<32 | uint64(run.body.BaseOffset)
-	id += uint64(pos) * uint64(run.body.RecordStep)
+	if pos < 0 {
+		pos = 0
+	}
+	if pos >= len(run.body.Chain) {
+		pos = len(run.body.Chain) - 1
+	}
+	p := run.body.Chain[pos]
+	idx := uint64(run.body.BaseIndex) + uint64(p.File)
+	if idx > 0xffffffff {
+		idx -= 0xffffffff // the file index after 0xffffffff is 1
+	}
 	al := NewAofLock()
-	al.AofIndex, al.AofOffset, al.CommandTime = uint32(id>>32), uint32(id), uint64(1700000000+t)
+	al.AofIndex, al.AofOffset, al.CommandTime = uint32(idx), p.Off, uint64(1700000000+t)
 	return al.GetAofId()
 }
 
@@ -463,7 +489,7 @@ type elPos struct {
 // posTable: every position this world can name, with its place in the reference order
 func (run *elRun) posTable() []elPos {
 	var out []elPos
-	for pos := 0; pos <= 8; pos++ {
+	for pos := 0; pos < len(run.body.Chain); pos++ {
 		for t := 0; t < 2; t++ {
 			out = append(out, elPos{run.posId(pos, t), pos, t})
 		}
